@@ -66,6 +66,9 @@ class Parser:
         return self.nparam - 1
 
     def cols(self):
+        if self.peek() == "*":
+            self.eat("*")
+            return ["*"]
         out = [self.ident()]
         while self.peek() == ",":
             self.eat(",")
